@@ -23,7 +23,9 @@ def recordings(tier):
     rs = [P.spec([[0, 150], [150, 130]], name="gapped-100-per-file-150+130"),
           P.spec([[0, 300000], [300000, 260000]], srn=200000, continuous=1, name="continuous-200k-per-file"),
           P.spec([[0, 120], [140, 60], [200, 130]], continuous=1, compression=1,
-                 name="continuous-compressed-jump-inside-a-file")]
+                 name="continuous-compressed-jump-inside-a-file"),
+          # file names of 9 and of 10 digits in one subdirectory: their order in time is not their order as text
+          P.spec([[0, 150], [150, 230]], start_sec=999999998, subdir_cadence=3600, name="gapped-across-10^9-seconds")]
     if tier == "thorough":
         rs += [P.spec([[30, 100], [250, 10], [260, 350]], name="gapped-midfile-start-and-gap"),
                P.spec([[0, 64], [64, 64], [128, 64], [192, 64]], srn=64, subdir_cadence=1, nsub=2, dtype="f4",
